@@ -701,3 +701,185 @@ package types
 //@   ensures [amounts] forall k int :: {r[k]} 0 <= k && k < len(r) ==> r[k].Amount.i != nil && val(r[k].Amount) == amtA(r[k].Denom) + amtB(r[k].Denom) && val(r[k].Amount) != 0
 //@   ensures [completeA] forall i int :: {coins[i]} 0 <= i && i < len(coins) ==> (exists k int :: {k == len(r) - (len(coins) - i)} 0 <= k && k < len(r) && r[k].Denom == coins[i].Denom) || amtA(coins[i].Denom) + amtB(coins[i].Denom) == 0
 //@   ensures [completeB] forall j int :: {coinsB[j]} 0 <= j && j < len(coinsB) ==> (exists k int :: {k == len(r) - (len(coinsB) - j)} 0 <= k && k < len(r) && r[k].Denom == coinsB[j].Denom) || amtA(coinsB[j].Denom) + amtB(coinsB[j].Denom) == 0
+
+//@ func (coins Coins) Add(coinsB Coins) (r Coins)
+//@   props C18
+//@   same_as types.Coins.safeAdd
+
+// negative: the same denominations with negated amounts, in a fresh slice; the operand is untouched
+//@ func (coins Coins) negative() (r Coins)
+//@   props C18
+//@   requires forall i int :: {coins[i]} 0 <= i && i < len(coins) ==> coins[i].Amount.i != nil
+//@   loop 1 frame
+//@   loop 1 invariant 0 - 1 <= #rangeindex && #rangeindex < len(coins) && len(res) == #rangeindex + 1 && fresh(res) && coins == old(coins)
+//@   loop 1 invariant forall i int :: {res[i]} 0 <= i && i < len(res) ==> res[i].Denom == coins[i].Denom && res[i].Amount.i != nil && val(res[i].Amount) == 0 - val(coins[i].Amount)
+//@   ensures len(r) == len(coins) && (len(coins) > 0 ==> fresh(r))
+//@   ensures forall i int :: {r[i]} 0 <= i && i < len(r) ==> r[i].Denom == coins[i].Denom && r[i].Amount.i != nil && val(r[i].Amount) == 0 - val(coins[i].Amount)
+//@   ensures forall i int :: {coins[i]} 0 <= i && i < len(r) ==> r[i].Denom == coins[i].Denom && r[i].Amount.i != nil && val(r[i].Amount) == 0 - val(coins[i].Amount)   // same fact, triggered from the operand
+
+//@ func (coins Coins) IsAnyNegative() (r bool)
+//@   props C18
+//@   requires forall i int :: {coins[i]} 0 <= i && i < len(coins) ==> coins[i].Amount.i != nil
+//@   loop 1 invariant 0 - 1 <= #rangeindex && #rangeindex < len(coins)
+//@   loop 1 invariant forall i int :: {coins[i]} 0 <= i && i <= #rangeindex ==> val(coins[i].Amount) >= 0
+//@   ensures r == (exists i int :: 0 <= i && i < len(coins) && val(coins[i].Amount) < 0)
+
+// C18: SafeSub is addition of the negated set: per denomination the difference of the two amounts, zero
+// differences dropped, sorted; hasNeg reports exactly whether some difference is negative. Operands untouched.
+//@ func (coins Coins) SafeSub(coinsB Coins) (diff Coins, hasNeg bool)
+//@   props C18
+//@   may_panic
+//@   define amtA(d) := coins[i].Denom => val(coins[i].Amount) for i in 0..len(coins) else 0
+//@   define amtB(d) := coinsB[i].Denom => val(coinsB[i].Amount) for i in 0..len(coinsB) else 0
+//@   requires forall i int, j int :: {coins[i], coins[j]} 0 <= i && i < j && j < len(coins) ==> str_lt(coins[i].Denom, coins[j].Denom)
+//@   requires forall i int, j int :: {coinsB[i], coinsB[j]} 0 <= i && i < j && j < len(coinsB) ==> str_lt(coinsB[i].Denom, coinsB[j].Denom)
+//@   requires forall i int :: {coins[i]} 0 <= i && i < len(coins) ==> coins[i].Amount.i != nil && val(coins[i].Amount) != 0
+//@   requires forall i int :: {coinsB[i]} 0 <= i && i < len(coinsB) ==> coinsB[i].Amount.i != nil && val(coinsB[i].Amount) != 0
+//@   ensures [sorted] forall k int, l int :: {diff[k], diff[l]} 0 <= k && k < l && l < len(diff) ==> str_lt(diff[k].Denom, diff[l].Denom)
+//@   ensures [amounts] forall k int :: {diff[k]} 0 <= k && k < len(diff) ==> diff[k].Amount.i != nil && val(diff[k].Amount) == amtA(diff[k].Denom) - amtB(diff[k].Denom) && val(diff[k].Amount) != 0
+//@   ensures [completeA] forall i int :: {coins[i]} 0 <= i && i < len(coins) ==> (exists k int :: 0 <= k && k < len(diff) && diff[k].Denom == coins[i].Denom) || amtA(coins[i].Denom) - amtB(coins[i].Denom) == 0
+//@   ensures [completeB] forall j int :: {coinsB[j]} 0 <= j && j < len(coinsB) ==> (exists k int :: 0 <= k && k < len(diff) && diff[k].Denom == coinsB[j].Denom) || amtA(coinsB[j].Denom) - amtB(coinsB[j].Denom) == 0
+//@   ensures [hasneg] hasNeg == (exists k int :: 0 <= k && k < len(diff) && val(diff[k].Amount) < 0)
+
+// C18: Sub returns the per-denomination differences when none is negative (every amount of the result is then
+// positive) and panics otherwise (it can also panic on 256-bit overflow inside Int.Add: may_panic).
+//@ func (coins Coins) Sub(coinsB Coins) (r Coins)
+//@   props C18
+//@   may_panic
+//@   define amtA(d) := coins[i].Denom => val(coins[i].Amount) for i in 0..len(coins) else 0
+//@   define amtB(d) := coinsB[i].Denom => val(coinsB[i].Amount) for i in 0..len(coinsB) else 0
+//@   requires forall i int, j int :: {coins[i], coins[j]} 0 <= i && i < j && j < len(coins) ==> str_lt(coins[i].Denom, coins[j].Denom)
+//@   requires forall i int, j int :: {coinsB[i], coinsB[j]} 0 <= i && i < j && j < len(coinsB) ==> str_lt(coinsB[i].Denom, coinsB[j].Denom)
+//@   requires forall i int :: {coins[i]} 0 <= i && i < len(coins) ==> coins[i].Amount.i != nil && val(coins[i].Amount) != 0
+//@   requires forall i int :: {coinsB[i]} 0 <= i && i < len(coinsB) ==> coinsB[i].Amount.i != nil && val(coinsB[i].Amount) != 0
+//@   ensures [sorted] forall k int, l int :: {r[k], r[l]} 0 <= k && k < l && l < len(r) ==> str_lt(r[k].Denom, r[l].Denom)
+//@   ensures [amounts] forall k int :: {r[k]} 0 <= k && k < len(r) ==> r[k].Amount.i != nil && val(r[k].Amount) == amtA(r[k].Denom) - amtB(r[k].Denom) && val(r[k].Amount) > 0
+//@   ensures [completeA] forall i int :: {coins[i]} 0 <= i && i < len(coins) ==> (exists k int :: 0 <= k && k < len(r) && r[k].Denom == coins[i].Denom) || amtA(coins[i].Denom) - amtB(coins[i].Denom) == 0
+//@   ensures [completeB] forall j int :: {coinsB[j]} 0 <= j && j < len(coinsB) ==> (exists k int :: 0 <= k && k < len(r) && r[k].Denom == coinsB[j].Denom) || amtA(coinsB[j].Denom) - amtB(coinsB[j].Denom) == 0
+
+// denom_re(d): d matches the denomination regular expression (the only regexp matched in this package's
+// functions under contract; uninterpreted)
+// established by package initialisation (regexp.MustCompile)
+//@ invariant reinv: reDnm != nil
+
+//@ func validateDenom(denom string) (err error)
+//@   props C18
+//@   uses reinv
+//@   ensures (err == nil) == denom_re(denom)
+
+// C18: IsValid is exactly the canonical form: strictly sorted by denomination, every amount positive, every
+// denomination well formed.
+//@ func (coins Coins) IsValid() (r bool)
+//@   props C18
+//@   requires forall i int :: {coins[i]} 0 <= i && i < len(coins) ==> coins[i].Amount.i != nil
+//@   uses reinv
+//@   loop 1 frame
+//@   loop 1 invariant 0 - 1 <= #rangeindex && #rangeindex < len(coins) - 1 && len(coins) >= 2 && lowDenom == coins[#rangeindex + 1].Denom
+//@   loop 1 invariant forall i int, j int :: {coins[i], coins[j]} 0 <= i && i < j && j <= #rangeindex + 1 ==> str_lt(coins[i].Denom, coins[j].Denom)
+//@   loop 1 invariant forall i int :: {coins[i]} 0 <= i && i <= #rangeindex + 1 ==> val(coins[i].Amount) > 0 && denom_re(coins[i].Denom)
+//@   ensures [sorted] r ==> (forall i int, j int :: {coins[i], coins[j]} 0 <= i && i < j && j < len(coins) ==> str_lt(coins[i].Denom, coins[j].Denom))
+//@   ensures [positive] r ==> (forall i int :: {coins[i]} 0 <= i && i < len(coins) ==> val(coins[i].Amount) > 0)
+//@   ensures [denoms] r ==> (forall i int :: {coins[i]} 0 <= i && i < len(coins) ==> denom_re(coins[i].Denom))
+//@   ensures [exact] (forall i int, j int :: {coins[i], coins[j]} 0 <= i && i < j && j < len(coins) ==> str_lt(coins[i].Denom, coins[j].Denom)) && (forall i int :: {coins[i]} 0 <= i && i < len(coins) ==> val(coins[i].Amount) > 0) && (forall i int :: {coins[i]} 0 <= i && i < len(coins) ==> denom_re(coins[i].Denom)) ==> r
+
+//@ func mustValidateDenom(denom string)
+//@   props C18
+//@   uses reinv
+//@   panics when !denom_re(denom)
+//@   ensures denom_re(denom)
+
+// C18: AmountOf is the amount the (sorted) set holds of the denomination, 0 if it holds none - by binary search
+//@ func (coins Coins) AmountOf(denom string) (r Int)
+//@   props C18
+//@   uses reinv
+//@   define amtA(d) := coins[i].Denom => val(coins[i].Amount) for i in 0..len(coins) else 0
+//@   requires forall i int, j int :: {coins[i], coins[j]} 0 <= i && i < j && j < len(coins) ==> str_lt(coins[i].Denom, coins[j].Denom)
+//@   requires forall i int :: {coins[i]} 0 <= i && i < len(coins) ==> coins[i].Amount.i != nil
+//@   panics when !denom_re(denom)
+//@   ensures r.i != nil && val(r) == amtA(denom)
+
+// C18: comparisons agree with the per-denomination comparison. For operands in canonical form (what IsValid
+// accepts) IsAllGTE answers "every amount of coinsB is covered by coins" and does not panic.
+//@ func (coins Coins) IsAllGTE(coinsB Coins) (r bool)
+//@   props C18
+//@   uses reinv
+//@   define amtA(d) := coins[i].Denom => val(coins[i].Amount) for i in 0..len(coins) else 0
+//@   requires forall i int, j int :: {coins[i], coins[j]} 0 <= i && i < j && j < len(coins) ==> str_lt(coins[i].Denom, coins[j].Denom)
+//@   requires forall i int, j int :: {coinsB[i], coinsB[j]} 0 <= i && i < j && j < len(coinsB) ==> str_lt(coinsB[i].Denom, coinsB[j].Denom)
+//@   requires forall i int :: {coins[i]} 0 <= i && i < len(coins) ==> coins[i].Amount.i != nil && val(coins[i].Amount) > 0
+//@   requires forall i int :: {coinsB[i]} 0 <= i && i < len(coinsB) ==> coinsB[i].Amount.i != nil && val(coinsB[i].Amount) > 0
+//@   requires forall i int :: {coinsB[i]} 0 <= i && i < len(coinsB) ==> denom_re(coinsB[i].Denom)
+//@   loop 1 frame
+//@   loop 1 invariant 0 - 1 <= #rangeindex && #rangeindex < len(coinsB) && len(coins) > 0
+//@   loop 1 invariant forall j int :: {coinsB[j]} 0 <= j && j <= #rangeindex ==> amtA(coinsB[j].Denom) >= val(coinsB[j].Amount)
+//@   ensures r == (forall j int :: {coinsB[j]} 0 <= j && j < len(coinsB) ==> amtA(coinsB[j].Denom) >= val(coinsB[j].Amount))
+
+//@ func (coins Coins) IsZero() (r bool)
+//@   props C18
+//@   requires forall i int :: {coins[i]} 0 <= i && i < len(coins) ==> coins[i].Amount.i != nil
+//@   loop 1 frame
+//@   loop 1 invariant 0 - 1 <= #rangeindex && #rangeindex < len(coins)
+//@   loop 1 invariant forall i int :: {coins[i]} 0 <= i && i <= #rangeindex ==> val(coins[i].Amount) == 0
+//@   ensures r == (forall i int :: {coins[i]} 0 <= i && i < len(coins) ==> val(coins[i].Amount) == 0)
+
+//@ func (coins Coins) Empty() (r bool)
+//@   props C18
+//@   ensures r == (len(coins) == 0)
+
+//@ func (coins Coins) IsAllPositive() (r bool)
+//@   props C18
+//@   requires forall i int :: {coins[i]} 0 <= i && i < len(coins) ==> coins[i].Amount.i != nil
+//@   loop 1 frame
+//@   loop 1 invariant 0 - 1 <= #rangeindex && #rangeindex < len(coins) && len(coins) > 0
+//@   loop 1 invariant forall i int :: {coins[i]} 0 <= i && i <= #rangeindex ==> val(coins[i].Amount) > 0
+//@   ensures r == (len(coins) > 0 && (forall i int :: {coins[i]} 0 <= i && i < len(coins) ==> val(coins[i].Amount) > 0))
+
+// C18: IsAllLTE is IsAllGTE with the operands exchanged
+//@ func (coins Coins) IsAllLTE(coinsB Coins) (r bool)
+//@   props C18
+//@   uses reinv
+//@   define amtB(d) := coinsB[i].Denom => val(coinsB[i].Amount) for i in 0..len(coinsB) else 0
+//@   requires forall i int, j int :: {coins[i], coins[j]} 0 <= i && i < j && j < len(coins) ==> str_lt(coins[i].Denom, coins[j].Denom)
+//@   requires forall i int, j int :: {coinsB[i], coinsB[j]} 0 <= i && i < j && j < len(coinsB) ==> str_lt(coinsB[i].Denom, coinsB[j].Denom)
+//@   requires forall i int :: {coins[i]} 0 <= i && i < len(coins) ==> coins[i].Amount.i != nil && val(coins[i].Amount) > 0 && denom_re(coins[i].Denom)
+//@   requires forall i int :: {coinsB[i]} 0 <= i && i < len(coinsB) ==> coinsB[i].Amount.i != nil && val(coinsB[i].Amount) > 0
+//@   ensures r == (forall i int :: {coins[i]} 0 <= i && i < len(coins) ==> amtB(coins[i].Denom) >= val(coins[i].Amount))
+
+// DenomsSubsetOf: true only if coinsB holds every denomination of coins; and true whenever it does and coins is
+// not longer than coinsB (the length pre-check; that it cannot exclude a real subset is a counting argument the
+// solver is not asked for)
+//@ func (coins Coins) DenomsSubsetOf(coinsB Coins) (r bool)
+//@   props C18
+//@   uses reinv
+//@   define amtB(d) := coinsB[i].Denom => val(coinsB[i].Amount) for i in 0..len(coinsB) else 0
+//@   requires forall i int, j int :: {coinsB[i], coinsB[j]} 0 <= i && i < j && j < len(coinsB) ==> str_lt(coinsB[i].Denom, coinsB[j].Denom)
+//@   requires forall i int :: {coinsB[i]} 0 <= i && i < len(coinsB) ==> coinsB[i].Amount.i != nil
+//@   requires forall i int :: {coins[i]} 0 <= i && i < len(coins) ==> denom_re(coins[i].Denom)
+//@   loop 1 frame
+//@   loop 1 invariant 0 - 1 <= #rangeindex && #rangeindex < len(coins) && len(coins) <= len(coinsB)
+//@   loop 1 invariant forall i int :: {coins[i]} 0 <= i && i <= #rangeindex ==> amtB(coins[i].Denom) != 0
+//@   ensures [sound] r ==> (forall i int :: {coins[i]} 0 <= i && i < len(coins) ==> amtB(coins[i].Denom) != 0)
+//@   ensures [complete] len(coins) <= len(coinsB) && (forall i int :: {coins[i]} 0 <= i && i < len(coins) ==> amtB(coins[i].Denom) != 0) ==> r
+
+// C18: IsAllGT: true only if coins is non-empty and exceeds every amount of coinsB
+//@ func (coins Coins) IsAllGT(coinsB Coins) (r bool)
+//@   props C18
+//@   uses reinv
+//@   define amtA(d) := coins[i].Denom => val(coins[i].Amount) for i in 0..len(coins) else 0
+//@   requires forall i int, j int :: {coins[i], coins[j]} 0 <= i && i < j && j < len(coins) ==> str_lt(coins[i].Denom, coins[j].Denom)
+//@   requires forall i int :: {coins[i]} 0 <= i && i < len(coins) ==> coins[i].Amount.i != nil && val(coins[i].Amount) > 0
+//@   requires forall i int :: {coinsB[i]} 0 <= i && i < len(coinsB) ==> coinsB[i].Amount.i != nil && val(coinsB[i].Amount) > 0 && denom_re(coinsB[i].Denom)
+//@   loop 1 frame
+//@   loop 1 invariant 0 - 1 <= #rangeindex && #rangeindex < len(coinsB) && len(coins) > 0
+//@   loop 1 invariant forall j int :: {coinsB[j]} 0 <= j && j <= #rangeindex ==> amtA(coinsB[j].Denom) > val(coinsB[j].Amount)
+//@   ensures [sound] r ==> len(coins) > 0 && (forall j int :: {coinsB[j]} 0 <= j && j < len(coinsB) ==> amtA(coinsB[j].Denom) > val(coinsB[j].Amount))
+//@   ensures [complete] len(coins) > 0 && len(coinsB) <= len(coins) && (forall j int :: {coinsB[j]} 0 <= j && j < len(coinsB) ==> amtA(coinsB[j].Denom) > val(coinsB[j].Amount)) ==> r
+
+//@ func (coins Coins) IsAllLT(coinsB Coins) (r bool)
+//@   props C18
+//@   uses reinv
+//@   define amtB(d) := coinsB[i].Denom => val(coinsB[i].Amount) for i in 0..len(coinsB) else 0
+//@   requires forall i int, j int :: {coinsB[i], coinsB[j]} 0 <= i && i < j && j < len(coinsB) ==> str_lt(coinsB[i].Denom, coinsB[j].Denom)
+//@   requires forall i int :: {coinsB[i]} 0 <= i && i < len(coinsB) ==> coinsB[i].Amount.i != nil && val(coinsB[i].Amount) > 0
+//@   requires forall i int :: {coins[i]} 0 <= i && i < len(coins) ==> coins[i].Amount.i != nil && val(coins[i].Amount) > 0 && denom_re(coins[i].Denom)
+//@   ensures [sound] r ==> len(coinsB) > 0 && (forall i int :: {coins[i]} 0 <= i && i < len(coins) ==> amtB(coins[i].Denom) > val(coins[i].Amount))
